@@ -11,7 +11,7 @@ pub fn def() -> PropDef {
     PropDef {
         info: PropInfo {
             id: "C14",
-            rule: "strings from three generators: (a) token soup over the assembler alphabet - mnemonics, registers with 1-40 digit numbers, identifiers of up to 80 Unicode letters/digits of 1-4 bytes each, decimal and hexadecimal literals of 1-80 digits with every sign combination, the extreme values around 2^63 and 2^64, brackets, commas, truncated operands; (b) arbitrary Unicode strings; (c) valid texts from the C13 generator with 1-3 character-level mutations; (d) valid texts in which a mnemonic's digits, a mnemonic suffix or an operand's digits are replaced by Unicode numeric characters of 2-4 bytes (superscripts, fractions, Arabic-Indic, full-width, Roman, circled, mathematical digits). Oracle: assemble() returns under catch_unwind (Ok or Err); inputs are at most a few KiB so the work is bounded; a single call slower than 20 s is reported as inconclusive, not as a violation. Non-trivial = input containing a numeric literal of >= 19 digits, a sign, or a bracket; distinct by hash.",
+            rule: "strings from three generators: (a) token soup over the assembler alphabet - mnemonics, registers with 1-40 digit numbers, identifiers of up to 80 Unicode letters/digits of 1-4 bytes each, decimal and hexadecimal literals of 1-80 digits with every sign combination, the extreme values around 2^63 and 2^64, brackets, commas, truncated operands; (b) arbitrary Unicode strings; (c) valid texts from the C13 generator with 1-3 character-level mutations; (d) valid texts in which a mnemonic's digits, a mnemonic suffix or an operand's digits are replaced by Unicode numeric characters of 2-4 bytes (superscripts, fractions, Arabic-Indic, full-width, Roman, circled, mathematical digits), or the mnemonic is an identifier of 1-5000 bytes over an alphabet that mixes characters of 1-4 bytes (lengths around 256, 500, 1024 and 4096 over-represented). Oracle: assemble() returns under catch_unwind (Ok or Err); inputs are at most a few KiB so the work is bounded; a single call slower than 20 s is reported as inconclusive, not as a violation. Non-trivial = input containing a numeric literal of >= 19 digits, a sign, or a bracket; distinct by hash.",
             assumptions: &["a panic anywhere below assemble() unwinds (the harness is built with panic=unwind)"],
         },
         run,
@@ -147,14 +147,18 @@ struct Lookalike {
     mode: u8,
     nums: Vec<char>,
     pos: u16,
+    /// mode 5: byte length and alphabet of a long identifier that replaces the mnemonic
+    long: (u16, Vec<char>),
 }
 
 /// Valid texts in which digits are replaced by (or mnemonics extended with) Unicode numeric
 /// characters: everything around the substitution parses and encodes, so the odd token reaches the
 /// deepest stage that looks at it.
 fn lookalike() -> impl Strategy<Value = Lookalike> {
-    (asmref::program(3), any::<u16>(), 0u8..5, prop::collection::vec(prop::sample::select(NUMERICS.to_vec()), 1..3), any::<u16>())
-        .prop_map(|(lines, line, mode, nums, pos)| Lookalike { lines, line, mode, nums, pos })
+    let letters = prop::sample::select(vec!['x', 'a', 'Z', '7', '\u{e9}', '\u{3a9}', '\u{416}', '\u{4e2d}', '\u{3042}', '\u{ff21}', '\u{1d400}', '\u{10400}', '\u{b2}', '\u{661}']);
+    let len = prop_oneof![2 => 1u16..200, 3 => 240u16..272, 4 => 470u16..530, 2 => 1000u16..1040, 2 => 4080u16..4110, 2 => 1u16..5000];
+    (asmref::program(3), any::<u16>(), 0u8..6, prop::collection::vec(prop::sample::select(NUMERICS.to_vec()), 1..3), any::<u16>(), (len, prop::collection::vec(letters, 1..5)))
+        .prop_map(|(lines, line, mode, nums, pos, long)| Lookalike { lines, line, mode, nums, pos, long })
 }
 
 fn apply_lookalike(l: &Lookalike) -> String {
@@ -171,10 +175,19 @@ fn apply_lookalike(l: &Lookalike) -> String {
             lines[k].mnemonic = lines[k].mnemonic.chars().map(|c| if c.is_ascii_digit() { *it.next().unwrap() } else { c }).collect();
         }
         2 => lines[k].mnemonic.push_str(&nums),
+        5 => {
+            // an identifier of about long.0 bytes over an alphabet of mixed character widths
+            let mut id = String::new();
+            let mut it = l.long.1.iter().cycle();
+            while id.len() < l.long.0 as usize {
+                id.push(*it.next().unwrap());
+            }
+            lines[k].mnemonic = id;
+        }
         _ => {}
     }
     let text = asmref::render(&lines);
-    if l.mode < 3 {
+    if l.mode < 3 || l.mode == 5 {
         return text;
     }
     let digit_pos: Vec<usize> = text.char_indices().filter(|(_, c)| c.is_ascii_digit()).map(|(i, _)| i).collect();
@@ -253,7 +266,10 @@ fn run(ctx: &Ctx) {
         if !want_case {
             account(ctx, &s, "unicode-numeric-lookalike");
             let mut st = ctx.stats();
-            st.class(match l.mode { 0 => "lookalike:stem+numeric", 1 => "lookalike:mnemonic-digits", 2 => "lookalike:mnemonic+numeric", 3 => "lookalike:one-operand-digit", _ => "lookalike:operand-digit-run" });
+            st.class(match l.mode { 0 => "lookalike:stem+numeric", 1 => "lookalike:mnemonic-digits", 2 => "lookalike:mnemonic+numeric", 3 => "lookalike:one-operand-digit", 4 => "lookalike:operand-digit-run", _ => "lookalike:long-identifier-as-mnemonic" });
+            if l.mode == 5 {
+                st.class(match s.len() { 0..=255 => "long-identifier:<256-bytes", 256..=511 => "long-identifier:256-511-bytes", 512..=1100 => "long-identifier:512-1100-bytes", _ => "long-identifier:>1100-bytes" });
+            }
             st.nontrivial(fnv_str(&s));
         }
         (v, if want_case { json!({"text": s}) } else { Value::Null })
